@@ -26,7 +26,7 @@ impl Prop for C16 {
         vec!["entropy sources varied: address-space layout and std's per-process hash seeds (separate process), VM history, evaluation order".into()]
     }
     fn phases(&self, tier: Tier) -> Vec<Phase> {
-        vec![Phase::new("batches", tier.pick(160, 2000)).min_cases(tier.pick(40, 500)).timeouts(300, tier.pick(300, 1500))]
+        vec![Phase::new("batches", tier.pick(160, 4000)).min_cases(tier.pick(40, 800)).timeouts(300, tier.pick(300, 1500))]
     }
     fn death_is_violation(&self) -> bool {
         false
